@@ -34,12 +34,21 @@ RULE = ("cases are drawn from random.Random(VERIF_SEED): dense tensors, sparse t
         "neighbours of powers of two and of ten from 1e-323 to 1e308, DBL_MIN/DBL_MAX, 17-significant-digit worst "
         "cases, both signs, +0.0 and -0.0); index bases 0, 1, 2 (and a few others) on hand-written files; a "
         "separate stream of malformed files (unknown header, size line of the wrong length, truncated data, ...). "
+        "Family digits: every binade boundary 2^k, 2^k -+ 1 ulp for -1074 <= k <= 1023 (quick: a random eighth), the "
+        "extremes, worst cases and sampled values, both signs, zeros, 48 per real file, alternately dense and sparse; "
+        "for each value also the neighbouring decimals / doubles and the 16-digit token, so that the model's decisions "
+        "come out both ways. "
         "A case is non-trivial when the implementation accepts the file and the object holds at least one value; "
         "distinct = distinct case hash")
 ASSUMPTIONS = [
-    "parse(fmt v) = v: a double written with '%.16e' (17 significant digits) by ndarray.tofile is read back "
-    "bit for bit by np.fromfile(sep=' ') / float(); this is a fact about libc and NumPy outside the Lean theorems "
-    "and is checked here on every value token of every exported file (count in the tags 'values_checked=...')",
+    "parse(fmt v) = v for '%.16e' (17 significant digits, written by ndarray.tofile and read back by "
+    "np.fromfile(sep=' ') / NumPy's str -> float64 item assignment) is no longer a bare assumption: C16_digits_roundtrip / "
+    "C16_digits_discharges_hypothesis prove it for every finite double (normal, subnormal, both zeros) from two "
+    "contracts of libc/NumPy - (1) the printed token is a nearest 17-digit decimal of the value, (2) the value read "
+    "is a nearest finite double of the token (ties in any way).  These two contracts are what remains outside the "
+    "Lean theorems; family 'digits' checks both exactly (Fraction arithmetic, and the model's proved-sound decision "
+    "procedures) on every binade boundary 2^k, 2^k -+ 1 ulp, -1074 <= k <= 1023, and on sampled values; the "
+    "composition parse(fmt v) = v is still checked on every value token of every exported file",
     "str(int) / '%d' and int() / np.int64() are mutually inverse on the integers that occur (checked token by token "
     "against the model's integer tokens)",
     "every line of an exported file is its tokens joined by single blanks (checked on every exported file), so "
@@ -955,8 +964,8 @@ def spec_nearest_bin(y, p):
 
 class Digits(Family):
     """The two libc/NumPy contracts that C16_digits_roundtrip turns into parse(fmt v) = v, on the real code
-    path: values are exported by export_data (dense: ndarray.tofile('%.16e'); sparse: Python's '%.16e' % v)
-    and re-imported by import_data (np.fromfile(sep=' ') / float()).  For every value v with printed token t
+    path: values are exported by export_data (ndarray.tofile(format='%.16e'), i.e. C printf) and re-imported
+    by import_data (dense: np.fromfile(sep=' '); sparse: NumPy's str -> float64 conversion on item assignment).  For every value v with printed token t
     and re-read value p: (1) t is a nearest 17-digit decimal of v (exact, Fraction), (2) p is a nearest
     double of t (exact, Fraction + math.nextafter), (3) the model's decision procedures nearestDecB /
     nearestBinB and its decomposition of bit patterns agree - also on perturbed inputs (neighbouring decimal,
@@ -964,8 +973,8 @@ class Digits(Family):
     Values: every binade boundary 2^k and 2^k -+ 1 ulp for -1074 <= k <= 1023 (subnormals included), the
     extremes, and the sampled values of the other families; both signs; zeros (dense only)."""
     name = "digits"
-    theorems = ("C16_digits_roundtrip", "C16_digits_nearest_decision_sound", "C16_digits_discharges_hypothesis",
-                "C16_digits_16_not_enough")
+    theorems = ("C16_digits_roundtrip", "C16_digits_nearest_decision_sound", "C16_digits_nearest_bin_decision_sound",
+                "C16_digits_discharges_hypothesis", "C16_digits_16_not_enough")
     PER = 48
 
     def gen(self, rng, tier):
